@@ -240,7 +240,16 @@ impl std::io::Write for CountW {
 /// the token is reset afterwards and the same call is made again (second outcome).
 pub fn execute(c: &Case, data: &[u8], pre_cancel: bool, cancel_at: Option<usize>, retry: bool) -> Vec<Outcome> {
     use std::sync::atomic::Ordering::SeqCst;
-    let image = ImageView::new(data, Size::new(c.w, c.h), c.color).expect("image");
+    // every third case (seed % 3 == 1; the generator rotates the residue) hands the image over as a strided view whose
+    // row pitch is not a multiple of the pixel size: the report arithmetic must not depend on how the rows are stored
+    let bpp = c.color.bytes_per_pixel() as usize;
+    let row = c.w as usize * bpp;
+    let strided_len = if c.seed % 3 == 1 && c.w > 0 && c.h > 0 && data.len() == (row + 3) * c.h as usize { row + 3 } else { 0 };
+    let image = if strided_len > 0 {
+        ImageView::new_with(data, strided_len, Size::new(c.w, c.h), c.color).expect("strided image")
+    } else {
+        ImageView::new(data, Size::new(c.w, c.h), c.color).expect("image")
+    };
     let token = CancellationToken::new();
     let shared = Arc::new(Shared { reports: Mutex::new(vec![]), at100: Mutex::new(None) });
     let lens: Vec<usize> = if c.opts.parallel {
@@ -524,7 +533,7 @@ pub fn gen(seed: u64, thorough: bool) -> Vec<String> {
             sh.3,
             if mips >= 2 { format!("m{mips}") } else { mips.to_string() },
             par as u8,
-            rng.below(1 << 30)
+            rng.below(1 << 28) * 3 + (*k as u64 % 3)
         );
         // the split rule is C14's subject: hand the real fragment geometry of every level to the model
         let geo = match parse(&line) {
@@ -649,6 +658,17 @@ pub fn run(line: &str) -> Option<(String, Vec<String>)> {
     };
     let data = make_image(c.w, c.h, c.color, c.seed);
     ImageView::new(&data, Size::new(c.w, c.h), c.color)?;
+    // strided variant of the same pixels (see `execute`): rows 3 bytes apart
+    let data = if c.seed % 3 == 1 && c.w > 0 && c.h > 0 {
+        let row = c.w as usize * c.color.bytes_per_pixel() as usize;
+        let mut buf = vec![0x5Au8; (row + 3) * c.h as usize];
+        for y in 0..c.h as usize {
+            buf[y * (row + 3)..y * (row + 3) + row].copy_from_slice(&data[y * row..(y + 1) * row]);
+        }
+        buf
+    } else {
+        data
+    };
     let mut orc = vec![];
     let frs = level_fragments(&c);
     if frs[0].len() as u32 != c.nf {
